@@ -128,7 +128,8 @@ example :
 /-! ### loop nests over operand trees: what the iterators emit is well-nested -/
 
 /-- For every loop nest (any depth; per level a source fiber / `a & b` / leader-follower / projection /
-    dense `iterShapeRef()` loop, optionally under `z <<` with a destination rank of format C or U,
+    dense `iterShapeRef()` loop, input ranks of format C or U, optionally under `z <<` with a destination rank
+    of format C or U,
     inserting and move phase included), all operand trees, every set of
     declared traces: the calls the iterators make are well-nested for every key of the `i`-th
     level, provided no other level writes traces under the same rank name. -/
